@@ -1025,4 +1025,79 @@ theorem open_close_bound_full {W U : Nat} {m m1 m2 : Market} {c : PerpCfg} {pr :
     rw [← hl] at hx hy
     exact close_impact_is_reverse_on_market hinc hx hy
 
+
+/-! ### the reverse pool delta always exists (audit: `close_delta_is_reverse` tightened) -/
+
+theorem cas_rev {W a r : Nat} {s : Int} (h : checkedAddWithSigned W a s = some r) (ha : a < 2 ^ W) :
+    r < 2 ^ W ∧ checkedAddWithSigned W r (-s) = some a := by
+  unfold checkedAddWithSigned at h ⊢
+  by_cases hs : s > 0
+  · simp only [hs, if_true] at h
+    unfold checkedAdd toU at h
+    split at h <;> cases h
+    rename_i hlt
+    have hn : ¬ (-s > 0) := by omega
+    simp only [hn, if_false]
+    unfold checkedSub
+    have e : (-s).natAbs = s.natAbs := by omega
+    rw [e]
+    have : s.natAbs ≤ a + s.natAbs := by omega
+    simp only [this, if_true]
+    exact ⟨hlt, by congr 1; omega⟩
+  · simp only [hs, if_false] at h
+    unfold checkedSub at h
+    split at h <;> cases h
+    rename_i hle
+    by_cases hz : s = 0
+    · subst hz
+      refine ⟨by simpa using ha, ?_⟩
+      simp [checkedSub]
+    · have hp : -s > 0 := by omega
+      simp only [hp, if_true]
+      unfold checkedAdd toU
+      have e : (-s).natAbs = s.natAbs := by omega
+      rw [e]
+      have e2 : a - s.natAbs + s.natAbs = a := by omega
+      rw [e2]
+      simp only [ha, if_true]
+      exact ⟨by omega, trivial⟩
+
+/-- **the pool delta of closing a just-opened position is the exact reverse of the opening's** —
+it always exists (no overflow branch): the amounts it starts from fit because the opening's did. -/
+theorem tryNew_rev {W ol os : Nat} {d : Int} {D : PoolDelta}
+    (h : PoolDelta.tryNew W ol os d 0 1 1 = some D) :
+    PoolDelta.tryNew W D.nextL D.nextS (-d) 0 1 1 = some D.rev := by
+  unfold PoolDelta.tryNew at h
+  repeat' (split at h)
+  all_goals first | (cases h; done) | skip
+  rename_i _ cl hcl _ cs hcs _ nl hnl _ ns hns
+  cases h
+  have bl : cl < 2 ^ W ∧ cl = ol := by unfold checkedMul toU at hcl; split at hcl <;> cases hcl; exact ⟨by assumption, by omega⟩
+  have bs : cs < 2 ^ W ∧ cs = os := by unfold checkedMul toU at hcs; split at hcs <;> cases hcs; exact ⟨by assumption, by omega⟩
+  obtain ⟨nlb, nlr⟩ := cas_rev hnl bl.1
+  obtain ⟨nsb, nsr⟩ := cas_rev hns bs.1
+  simp only [Int.neg_zero] at nsr
+  unfold PoolDelta.tryNew
+  have m1 : checkedMul W nl 1 = some nl := by unfold checkedMul toU; simp [nlb]
+  have m2 : checkedMul W ns 1 = some ns := by unfold checkedMul toU; simp [nsb]
+  simp only [m1, m2, nlr, nsr, PoolDelta.rev]
+
+
+/-- a successful decrease validated the prices: the collateral token's min and max price are non-zero. -/
+theorem decrease_prices_nonzero {W U : Nat} {m m' : Market} {c : PerpCfg} {pr : Prices} {p p' : Pos} {sd0 wd : Nat}
+    {fl : DecreaseFlags} {r : DecreaseReport} (h : decrease W U m c pr p sd0 wd fl = .ok (m', p', r)) :
+    (pr.collateral p.collLong).min ≠ 0 ∧ (pr.collateral p.collLong).max ≠ 0 := by
+  obtain ⟨_, _, _, _, _, _, _, _, _, _, _, _, _, _, _, _, _, hval⟩ := decrease_parts2 h
+  unfold Prices.isValid at hval
+  simp only [Bool.and_eq_true] at hval
+  have pv : ∀ q : Price, q.isValid W = true → q.min ≠ 0 ∧ q.max ≠ 0 := by
+    intro q hq
+    unfold Price.isValid at hq
+    simp only [Bool.and_eq_true, bne_iff_ne, ne_eq] at hq
+    exact ⟨hq.1.1, hq.1.2⟩
+  unfold Prices.collateral
+  split
+  · exact pv _ hval.1.2
+  · exact pv _ hval.2
+
 end Gmx.Lem
